@@ -19,6 +19,7 @@ import (
 	"mycoverif/core"
 	"mycoverif/ident"
 	"mycoverif/node"
+	"mycoverif/simsync"
 )
 
 type sealed struct {
@@ -520,6 +521,125 @@ func run(e *core.Env) {
 			}
 		}
 		e.Probe("session_through_key_roll_overs")
+	}
+
+	// ---- a copy of an accepted frame is opened while new keys are installed (a third of the runs) ----
+	// A router unseals end-to-end frames on one worker per CPU, and a key setup message of the
+	// same source (hello request served, or the response to an own request) is handled by another
+	// of these workers on the live session. Package state runs under the cooperative scheduler
+	// here (sync and sync/atomic replaced by yielding shims): the tape picks the running task at
+	// every lock and atomic operation. Whatever the interleaving, the copy must not unseal a
+	// second time, and the frames sealed under the new keys must unseal.
+	if tp.Chance(1, 3) {
+		sealOne := func(mt frame.MessageType) sealed {
+			f, err := sB.NewFrameV1(sID.IP, rID.IP, mt, nil, tp.Bytes(1+tp.Intn(40)), nil)
+			if err != nil {
+				e.Infra("new frame: %v", err)
+			}
+			if err := f.Seal(sSess); err != nil {
+				e.Infra("seal (re-key phase): %v", err)
+			}
+			s := sealed{seq: uint64(f.SequenceNum()), data: copyFrame(f)}
+			f.ReturnToPool()
+			return s
+		}
+		// fresh keys first, so that the phase does not depend on what the histories above left
+		rekey := func() {
+			kx, kxt, err := sSess.Encryption().InitKeyClientStart()
+			if err != nil {
+				e.Infra("kx: %v", err)
+			}
+			kx2, kxt2, err := rSess.Encryption().InitKeyServer(kx, kxt)
+			if err != nil {
+				e.Infra("kx: %v", err)
+			}
+			if err := sSess.Encryption().InitKeyClientComplete(kx2, kxt2); err != nil {
+				e.Infra("kx: %v", err)
+			}
+			sSess.Encryption().InitCleanup()
+			rSess.Encryption().InitCleanup()
+		}
+		rekey()
+		var acc []sealed
+		for i, n := 0, 2+tp.Intn(5); i < n; i++ {
+			mt := frame.NetworkTraffic
+			if tp.Chance(1, 4) {
+				mt = frame.RouterCtrl
+			}
+			fr := sealOne(mt)
+			if err := deliverE2E(fr.data); err != nil {
+				e.Fail("regular/fresh-refused/after-re-key", "frame number %d sealed under freshly installed keys refused: %v", fr.seq, err)
+			}
+			acc = append(acc, fr)
+		}
+		dup := acc[tp.Intn(len(acc))]
+		serverRole := tp.Chance(1, 2)
+		var kx, kx2 []byte
+		var kxt, kxt2 string
+		var err error
+		if serverRole {
+			// S starts a new exchange; R serves it while the copy is being opened
+			kx, kxt, err = sSess.Encryption().InitKeyClientStart()
+		} else {
+			// R starts, S serves (S now seals under the new keys); R completes while the copy is being opened
+			kx, kxt, err = rSess.Encryption().InitKeyClientStart()
+			if err == nil {
+				kx2, kxt2, err = sSess.Encryption().InitKeyServer(kx, kxt)
+			}
+		}
+		if err != nil {
+			e.Infra("kx: %v", err)
+		}
+		var dupErr, kxErr error
+		st := simsync.RunTasks(func(n, cur int) int {
+			if cur >= 0 && !tp.Chance(1, 2) {
+				return cur
+			}
+			return tp.Intn(n)
+		}, []func(){
+			func() { dupErr = deliverE2E(dup.data) },
+			func() {
+				if serverRole {
+					kx2, kxt2, kxErr = rSess.Encryption().InitKeyServer(kx, kxt)
+				} else {
+					kxErr = rSess.Encryption().InitKeyClientComplete(kx2, kxt2)
+				}
+			},
+		})
+		if st.Deadlock {
+			e.Fail("receiver-tasks-deadlock", "an Unseal call and a key installation on one session deadlocked")
+		}
+		for _, p := range st.Panics {
+			e.Fail("panic", "a receive task panicked: %v", p)
+		}
+		if kxErr != nil {
+			e.Infra("kx under tasks: %v", kxErr)
+		}
+		e.Ev("dup-vs-rekey", b2u(serverRole), dup.seq, b2u(dupErr == nil), uint64(st.Switches))
+		if dupErr == nil {
+			e.Fail("regular/dup-accepted/while-keys-are-installed",
+				"frame number %d had been accepted; a copy of it was opened by one worker while another installed new keys on the session (receiver in the %s role, %d task switches): the copy unsealed a second time",
+				dup.seq, map[bool]string{true: "server", false: "client"}[serverRole], st.Switches)
+		}
+		if serverRole {
+			if err := sSess.Encryption().InitKeyClientComplete(kx2, kxt2); err != nil {
+				e.Infra("kx: %v", err)
+			}
+		}
+		sSess.Encryption().InitCleanup()
+		rSess.Encryption().InitCleanup()
+		for i := 0; i < 4; i++ {
+			fr := sealOne(frame.NetworkTraffic)
+			if err := deliverE2E(fr.data); err != nil {
+				e.Fail("regular/fresh-refused/after-re-key",
+					"a copy of accepted frame number %d was opened while new keys were installed (copy refused: %v); afterwards frame number %d sealed under the new keys is refused: %v",
+					dup.seq, dupErr != nil, fr.seq, err)
+			}
+		}
+		e.Probe("copy_opened_while_keys_are_installed")
+		if st.Switches > 0 {
+			e.Probe("task_switches")
+		}
 	}
 }
 
